@@ -23,6 +23,7 @@
 -/
 import Aqv.Lemmas.TxSign
 import Aqv.Props.C11
+import Aqv.Lemmas.Translated.TxSign
 namespace Aqv.Props.C12
 open Aqv Aqv.Rlp Aqv.TxSign
 
@@ -601,5 +602,32 @@ example : txOfJson (jsonOfTx ⟨3, 7, 21000, some (List.replicate 20 9), 5, [1, 
 
 /-- unforgeable_partial: hypotheses satisfiable (two contents differing in the nonce, the second accepted). -/
 example : (⟨4, 1, 21000, none, 0, []⟩ : Signed) ≠ ⟨0, 1, 21000, none, 0, []⟩ := by decide
+
+/-! ### tie by translation (T-gen `translated`, DESIGN 2.2 mini-translator): the V arithmetic and the signature range check
+
+core/types.isProtectedV, core/types.deriveChainId and crypto.ValidateSignatureValues are translated from the go/ssa form of the
+tree under test on every run (`Aqv.Gen.Translated`; a non-nil `*big.Int` is an `Int`, `BitLen`/`Uint64`/`Cmp` as math/big
+defines them on the magnitude).  On the non-negative values the model ranges over, the translated code computes the model
+functions the theorems above are stated on (proofs in `Aqv.Lemmas.Translated.TxSign`).  `Fits v`: the bit length of `v` fits
+Go's `int` — true of every value that exists in memory; for transaction fields (< 2^256) it is proved, not assumed. -/
+
+theorem vArith_code_is_model (v : Nat) (hv : v < 2 ^ 256) :
+    Aqv.Gen.Translated.isProtectedV (v : Int) = isProtectedV v ∧
+    Aqv.Gen.Translated.deriveChainId (v : Int) = (deriveChainId v : Int) :=
+  have hf := Aqv.Lemmas.Translated.fits_of_lt v 256 (by decide) hv
+  ⟨Aqv.Lemmas.Translated.isProtectedV_translated_eq v hf, Aqv.Lemmas.Translated.deriveChainId_translated_eq v hf⟩
+
+example : Aqv.Gen.Translated.isProtectedV 27 = false ∧ Aqv.Gen.Translated.isProtectedV 37 = true ∧
+    Aqv.Gen.Translated.deriveChainId 37 = 1 ∧ Aqv.Gen.Translated.deriveChainId 28 = 0 := by decide
+
+/-- crypto.ValidateSignatureValues: the package-level variables it reads (common.Big1, secp256k1_N, secp256k1_halfN) are
+    explicit parameters of the translated definition; at the model's constants the code is the model's range check. -/
+theorem validateSignatureValues_code_is_model (v : UInt8) (r s : Nat) (homestead : Bool) :
+    Aqv.Gen.Translated.ValidateSignatureValues ((1 : Nat) : Int) (secpN : Nat) (secpHalfN : Nat) v (r : Int) (s : Int) homestead
+      = validateSignatureValues v.toNat r s homestead :=
+  Aqv.Lemmas.Translated.ValidateSignatureValues_translated_eq v r s homestead
+
+example : validateSignatureValues (1 : UInt8).toNat 1 (secpHalfN + 1) true = false ∧
+    validateSignatureValues (1 : UInt8).toNat 1 (secpHalfN + 1) false = true := by decide
 
 end Aqv.Props.C12
